@@ -356,6 +356,21 @@ impl VirtualRecv {
             .encode(&self.local_id)
     }
 
+    /// A datagram holding a handshake packet from `src_id` (64-byte signature, 33-byte ephemeral
+    /// key, no record, random message), encoded for the local node.
+    pub fn handshake_datagram(&self, src_id: NodeId) -> Vec<u8> {
+        let mut p = Packet::new_authheader(
+            src_id,
+            [3; 12],
+            ProtocolIdentity::default(),
+            vec![0x11; 64],
+            vec![0x02; 33],
+            None,
+        );
+        p.message = vec![0x5a; 32];
+        p.encode(&self.local_id)
+    }
+
     /// A datagram holding a WHOAREYOU packet (no source id), encoded for the local node.
     pub fn whoareyou_datagram(&self) -> Vec<u8> {
         Packet::new_whoareyou([7; 12], [9; 16], ProtocolIdentity::default(), 1).encode(&self.local_id)
